@@ -706,6 +706,8 @@ def batch(task):
     PROCESS_LOG.append((seed, lo, hi))
     tier = TIERS[task.get("tier", "quick")]
     agg = new_agg()
+    if runner.past_deadline():
+        return agg  # the tier's soft time budget is used up: no further runs are started
     for run in range(lo, hi):
         try:
             res, program = runner.guarded(one_run, 120, seed, run, force_config=task.get("config"))
